@@ -346,27 +346,27 @@ class World:
         s = '%d:%s' % (i, k)
         b = lambda v: '1' if v else '0'
         if k == 'netlist':
-            s += ' libs=%s top=%s data=%s ns=%s' % (self._slist(o.libraries), self.tok_id(o.top_instance), self._sdata(o), self._sns(o))
+            s += '; libs=%s; top=%s; data=%s; ns=%s' % (self._slist(o.libraries), self.tok_id(o.top_instance), self._sdata(o), self._sns(o))
         elif k == 'library':
-            s += ' par=%s defs=%s data=%s ns=%s' % (self.tok_id(o.netlist), self._slist(o.definitions), self._sdata(o), self._sns(o))
+            s += '; par=%s; defs=%s; data=%s; ns=%s' % (self.tok_id(o.netlist), self._slist(o.definitions), self._sdata(o), self._sns(o))
         elif k == 'definition':
-            s += ' par=%s ports=%s cables=%s children=%s refs={%s} data=%s ns=%s' % (
+            s += '; par=%s; ports=%s; cables=%s; children=%s; refs={%s}; data=%s; ns=%s' % (
                 self.tok_id(o.library), self._slist(o.ports), self._slist(o.cables), self._slist(o.children),
                 ' '.join(sorted(self.tok_id(x) for x in o.references)), self._sdata(o), self._sns(o))
         elif k == 'port':
-            s += ' par=%s pins=%s dn=%s sc=%s lo=%d dir=%d data=%s' % (
+            s += '; par=%s; pins=%s; dn=%s; sc=%s; lo=%d; dir=%d; data=%s' % (
                 self.tok_id(o.definition), self._slist(o.pins), b(o.is_downto), b(o.is_scalar), o.lower_index,
                 o.direction.value, self._sdata(o))
         elif k == 'cable':
-            s += ' par=%s wires=%s dn=%s sc=%s lo=%d data=%s' % (
+            s += '; par=%s; wires=%s; dn=%s; sc=%s; lo=%d; data=%s' % (
                 self.tok_id(o.definition), self._slist(o.wires), b(o.is_downto), b(o.is_scalar), o.lower_index,
                 self._sdata(o))
         elif k == 'wire':
-            s += ' par=%s pins=[%s]' % (self.tok_id(o.cable), ' '.join(self.tok_pin(p) for p in o.pins))
+            s += '; par=%s; pins=[%s]' % (self.tok_id(o.cable), ' '.join(self.tok_pin(p) for p in o.pins))
         elif k == 'pin':
-            s += ' par=%s wire=%s' % (self.tok_id(o.port), self.tok_id(o.wire))
+            s += '; par=%s; wire=%s' % (self.tok_id(o.port), self.tok_id(o.wire))
         elif k == 'instance':
-            s += ' par=%s ref=%s istop=%s pins=[%s] data=%s' % (
+            s += '; par=%s; ref=%s; istop=%s; pins=[%s]; data=%s' % (
                 self.tok_id(o.parent), self.tok_id(o.reference), b(o.is_top_instance),
                 ' '.join('%s>%s' % (self.tok_id(ip), self.tok_id(op.wire)) for ip, op in o._pins.items()),
                 self._sdata(o))
